@@ -22,7 +22,7 @@ def register(db):
         db.contract(fn=f"AmqpChannel.{op}", assumed=True, is_async=True, params=params, defaults=defaults,
                     effects=[("amqp", f"('{op}', delivery_tag" + (", requeue)" if "requeue" in params else ")"))],
                     note="aiormq channel method: one AMQP frame")
-    db.shape("RabbitMessageBroker", {"dsn": "str", "qnc": "func[RabbitQnc]", "idd": "opaque",
+    db.shape("RabbitMessageBroker", {"dsn": "str", "qnc": "func[RabbitQnc]", "idd": "func[DurableDecider]",
                                      "_id_to_delivery_tag": "map[str, int]"})
     db.contract(fn=B + "_channel", assumed=True, returns="AmqpChannel",
                 note="the open channel (raises ConnectionError when closed: outside the decided part)")
@@ -80,3 +80,57 @@ def finalize(db):
                  "ttl_representable": "result.ttl is None or dt_in_range(result.timestamp + result.ttl)"}
     c.raises = [Raises("Exception", mode="may", anysub=True)]
     c.note = "callers outside the round-trip harness see decode() through these clauses (the harness verifies the body)"
+
+
+def register_broker(db):
+    TAGS = "self._id_to_delivery_tag"
+    for op, ev in (("ack", "('basic_ack', old(%s)[key.id_])"), ("nack", "('basic_nack', old(%s)[key.id_], False)"),
+                   ("reject", "('basic_reject', old(%s)[key.id_], True)")):
+        db.contract(
+            fn=B + op, serves=["C01", "C14"], ghost_init={"amqp": "events"},
+            # exactly one AMQP disposition for the delivery tag of this message id, and the tag is forgotten
+            effects=[("amqp", ev % TAGS, f"key.id_ in {TAGS}")],
+            ensures={"tag_forgotten": f"key.id_ not in {TAGS}",
+                     "other_tags_kept": f"forall_str(i, implies(i != key.id_, (i in {TAGS}) == (i in old({TAGS}))"
+                                        f" and implies(i in {TAGS}, {TAGS}[i] == old({TAGS})[i])))"},
+            raises=[], modifies=[TAGS],
+        )
+    db.contract(fn="RabbitQnc.__call__", assumed=True, params=["fn", "queue_name", "delayed", "dead"],
+                defaults={"delayed": "False", "dead": "False"}, returns="str",
+                ensures={"det": "result == rabbit_queue(queue_name, delayed, dead)"})
+    db.ufun("rabbit_queue", ["str", "bool", "bool"], "str")
+    db.contract(fn="DurableDecider.__call__", assumed=True, params=["fn", "key"], returns="bool")
+    db.shape("BasicAck", {})
+    db.shape("AmqpProperties", {"message_id": "str", "priority": "int", "expiration": "Optional[str]", "delivery_mode": "int",
+                                "timestamp": "Optional[datetime]", "headers": "cdict"})
+    db.contract(fn="AmqpChannel.basic_publish", assumed=True, is_async=True,
+                params=["self", "body", "routing_key", "properties", "mandatory"], defaults={"mandatory": "False"},
+                returns="BasicAck", effects=[("amqp", "('basic_publish', routing_key, properties.expiration, properties.priority, properties.message_id)")],
+                note="publisher confirms: returns Basic.Ack when the broker took the message")
+    db.contract(fn="repid/connections/rabbitmq/utils.py::durable_message_decider", assumed=True, returns="bool")
+    db.contract(
+        fn=B + "enqueue", serves=["C05", "C07"], clock=["now", "now2"], binds={"params": "Optional[Parameters]"},
+        ghost_init={"amqp": "events"},
+        requires=["params is not None", "P_next_ok(params)", "params.delay.next_execution_time is not None"],
+        lets={"T": "params.delay.next_execution_time"},
+        ensures={
+            "one_publish": "len(amqp) == 1 and amqp[0][0] == 'basic_publish'",
+            "id_and_priority_on_the_wire": "amqp[0][3] == key.priority and amqp[0][4] == key.id_",
+            # C05: due in the future -> delayed queue with a TTL that cannot expire before T - 1 ms
+            "future_goes_to_delayed_queue": "implies(us(T) - us(now2) >= 1000, amqp[0][1] == rabbit_queue(key.queue, True, False)"
+                                            " and amqp[0][2] is not None)",
+            "ttl_not_early": "implies(amqp[0][2] is not None, exists_int(ms, ms > 0 and amqp[0][2] == str(ms)"
+                             " and us(now2) + ms * 1000 > us(T) - 1000 and us(now2) + ms * 1000 <= us(T)))",
+            "due_goes_to_main_queue": "implies(us(T) - us(now2) < 1000, amqp[0][1] == rabbit_queue(key.queue, False, False)"
+                                      " and amqp[0][2] is None)",
+        },
+        raises=[], modifies=[], trace_exact=False,
+    )
+
+
+_reg_r = register
+
+
+def register(db):  # noqa: F811
+    _reg_r(db)
+    register_broker(db)
